@@ -32,6 +32,13 @@ Proof. reflexivity. Qed.
 Lemma node_tick_ticks_tables : node_tick_advances_all_tables = true.
 Proof. reflexivity. Qed.
 
+(* proposalShard.propose: pending[key] = req (ProposeA) comes before proposals.add(entry)
+   (ProposeB), and both refusal branches delete pending[key] again.  The invariant
+   accepted_without_result_is_referenced rests on this order: a proposal is referenced before the
+   queue can accept it, so a close() of the shard in between terminates it *)
+Lemma propose_order : propose_registers_before_enqueue = true.
+Proof. reflexivity. Qed.
+
 (* every table method the model treats as ONE step is one critical section
    (Lock; defer Unlock at the top) in the source *)
 Definition modelled_atomic : list string :=
